@@ -1211,7 +1211,7 @@ impl Mode {
         }
     }
     pub fn bam() -> Mode {
-        Mode::new(Target::Bam)
+        Mode { max_pos: 1 << 31, ..Mode::new(Target::Bam) }
     }
     pub fn sam() -> Mode {
         Mode::new(Target::Sam)
@@ -1228,7 +1228,7 @@ impl Mode {
         self
     }
     pub fn max_pos(mut self, p: u64) -> Self {
-        self.max_pos = p.clamp(1, (1 << 31) - 1);
+        self.max_pos = p.clamp(1, 1 << 31);
         self
     }
     pub fn plain_positions(mut self) -> Self {
@@ -1268,7 +1268,8 @@ pub fn name_strategy(names: Names) -> BoxedStrategy<Option<B>> {
 
 /// 1-based positions, boundary-dense.
 pub fn position_strategy(max: u64, dense: bool) -> BoxedStrategy<u64> {
-    let max = max.clamp(1, (1 << 31) - 1);
+    // (2^31 is the largest 1-based position a BAM field holds: 0-based i32::MAX; SAM text stops at 2^31 - 1)
+    let max = max.clamp(1, 1 << 31);
     if !dense {
         return (1u64..=max.min(100_000)).boxed();
     }
@@ -1280,7 +1281,7 @@ pub fn position_strategy(max: u64, dense: bool) -> BoxedStrategy<u64> {
     for m in [3u64, 5, 7] {
         b.extend_from_slice(&[m * 16384 - 1, m * 16384, m * 16384 + 1]);
     }
-    b.extend_from_slice(&[(1 << 31) - 2, (1 << 31) - 1]);
+    b.extend_from_slice(&[(1 << 31) - 2, (1 << 31) - 1, 1 << 31]);
     b.retain(|x| *x >= 1 && *x <= max);
     let log = (0u32..31, any::<u32>()).prop_map(move |(bits, x)| (((x as u64) & ((1u64 << (bits + 1)) - 1)).max(1)).min(max));
     prop_oneof![
@@ -1612,7 +1613,7 @@ pub fn invalid_reason(r: &AlnRecord, n_ref: usize, target: Target) -> Option<Str
     }
     for (what, p) in [("position", r.pos), ("mate position", r.mate_pos)] {
         if let Some(p) = p {
-            if p == 0 || p > (1 << 31) - 1 {
+            if p == 0 || p > (if sam { (1u64 << 31) - 1 } else { 1u64 << 31 }) {
                 return Some(format!("{what} {p}"));
             }
         }
